@@ -553,7 +553,9 @@ class Source:
         """locate `Class.method` / `function` (and optionally a nested def inside it) in rel; never cached between runs."""
         tree = self.tree(rel); body = tree.body; node = None
         for part in qual.split('.'):
-            node = next((n for n in body if isinstance(n, (ast.FunctionDef, ast.AsyncFunctionDef, ast.ClassDef)) and n.name == part), None)
+            cands = [n for n in body if isinstance(n, (ast.FunctionDef, ast.AsyncFunctionDef, ast.ClassDef)) and n.name == part
+                     and not any(ast.unparse(d).split('.')[-1] == 'overload' for d in getattr(n, 'decorator_list', []))]
+            node = cands[-1] if cands else None          # the last (effective) definition; @overload stubs are skipped
             if node is None: raise Unsupported(f"function {qual} not found in {rel}")
             body = node.body
         if nested:
@@ -665,7 +667,7 @@ def discharge(timeout=10000, procs=16, verbose=False):
         r, sv, ms = res[key]
         d = {'name': ob.name, 'props': list(ob.props), 'kind': ob.kind, 'solver': sv, 'ms': ms, 'raw': r}
         if ob.kind == 'mustfail':
-            d['status'] = 'reachable' if r.startswith('sat') or r == 'unknown' else 'VACUOUS'
+            d['status'] = 'reachable' if r.startswith('sat') or r == 'unknown' else 'infeasible'      # check.py: a function none of whose guards is reachable is VACUOUS
         else:
             d['status'] = {'unsat': 'proved', 'sat': 'refuted', 'sat(candidate)': 'refuted', 'unknown': 'undecided'}[r]
             if r == 'sat(candidate)': d['candidate'] = True
@@ -673,7 +675,11 @@ def discharge(timeout=10000, procs=16, verbose=False):
             # re-solve in process to obtain a model and evaluate the witness terms
             s = Solver(); s.set('timeout', timeout)
             s.add(*[h for h in ob.hyps if not (d.get('candidate') and is_quantifier(h))]); s.add(Not(skolem(ob.goal)))
-            if s.check() == sat:
+            rr = s.check()
+            if rr != sat and not d.get('candidate'):
+                s = Solver(); s.set('timeout', timeout); s.add(*[h for h in ob.hyps if not is_quantifier(h)]); s.add(Not(skolem(ob.goal))); rr = s.check()
+                if rr == sat: d['witness_from_quantifier_free_hypotheses'] = True
+            if rr == sat:
                 m = s.model(); d['witness'] = {kx: _model_value(m, vx) for kx, vx in ob.witness.items()}
                 d['model_excerpt'] = str(m)[:1500]
             else:
